@@ -188,15 +188,40 @@ def strip_gap_indent(units, gap):
     return out
 
 
+def lone_surrogate(units):
+    u = units or []
+    for i, c in enumerate(u):
+        if 0xD800 <= c <= 0xDBFF:
+            if not (i + 1 < len(u) and 0xDC00 <= u[i + 1] <= 0xDFFF):
+                return True
+        elif 0xDC00 <= c <= 0xDFFF:
+            if not (i > 0 and 0xD800 <= u[i - 1] <= 0xDBFF):
+                return True
+    return False
+
+
+def allowlist_has_lone_surrogate(case):
+    r = case.get("r") or {}
+    return r.get("t") == "list" and any(e.get("t") in ("str", "boxstr") and lone_surrogate(e.get("s"))
+                                        for e in (r.get("l") or []))
+
+
 def explain_one(case, obs, S, I, with_gap):
-    """-> set of finding names explaining obs (empty set: obs = S), or None"""
+    """-> set of finding names explaining obs (empty set: obs = S), or None.
+    I is the model with the two text-changing recorded defects switched on; it is only consulted when the input
+    has the shape of one of them (a Symbol wrapper in the value / a lone surrogate in an allow-list entry)."""
     if obs == S:
         return set()
     cands = [(S, set())]
-    if has_kind(case.get("v"), "boxsym") and I != S:
+    shape = set()
+    if has_kind(case.get("v"), "boxsym"):
+        shape.add("C19.stringify_symbol_wrapper_object")
+    if with_gap is not None and allowlist_has_lone_surrogate(case):
+        shape.add("C19.stringify_allowlist_lone_surrogate")
+    if shape and I != S:
         if obs == I:
-            return {"C19.stringify_symbol_wrapper_object"}
-        cands.append((I, {"C19.stringify_symbol_wrapper_object"}))
+            return shape
+        cands.append((I, shape))
     if not with_gap or obs[0] != "text":
         return None
     gap = gap_units(case)
@@ -233,7 +258,7 @@ def explain(case, rec, exp):
     m = re.search(r"\(Some (\(TText \(U \[[0-9;]*\]%N\)\)|TUndef|\(TErr \d+%N\))\)$", rec.get("coq", ""))
     if m:
         mo = sobs_list(m.group(1))[0]
-        ids2 = explain_one(case, mo, MS, MI, False)
+        ids2 = explain_one(case, mo, MS, MI, None)
         if ids2 is None:
             return None
         ids |= ids2
@@ -249,36 +274,47 @@ def pred(name):
 
 PRED_NAMES = ["C19.parse_number_out_of_double_range", "C19.stringify_indent_leak_after_empty_container",
               "C19.stringify_space_number_ge_2p63", "C19.stringify_nonascii_gap",
-              "C19.stringify_symbol_wrapper_object"]
+              "C19.stringify_symbol_wrapper_object", "C19.stringify_allowlist_lone_surrogate"]
 
 # ------------------------------------------------------------------------------------------------
 # batched handling of mismatches
 
 
-def eval_expected(ctx, recs, tag):
-    """-> list of (still_mismatching, expected_text) per record"""
+def _eval_chunk(args):
+    work, run_module, tag, idx, chunk = args
+    path = os.path.join(work, "exp_%s_%d.v" % (tag, idx))
+    with open(path, "w") as f:
+        f.write("From Coq Require Import List ZArith NArith String Ascii.\nImport ListNotations.\n")
+        f.write("Require Import %s.\n" % run_module)
+        f.write("Set Printing Width 1000000. Set Printing Depth 1000000.\n")
+        for i, r in enumerate(chunk):
+            f.write("Definition c%d : tcase := (%s).\n" % (i, r["coq"]))
+            f.write("Eval vm_compute in (mismatch_ids [c%d], expected c%d).\n" % (i, i))
+    rc, out = vcheck.sh(["coqc", "-Q", vcheck.COQ, "Verif", "-o", path + "o", path], timeout=900)
+    parts = re.split(r"^\s+= ", out, flags=re.M)[1:]
+    if rc != 0 or len(parts) != len(chunk):
+        return None, out[-600:]
     res = []
-    per = 150
-    for s in range(0, len(recs), per):
-        chunk = recs[s:s + per]
-        path = os.path.join(ctx.work, "exp_%s_%d.v" % (tag, s // per))
-        with open(path, "w") as f:
-            f.write("From Coq Require Import List ZArith NArith String Ascii.\nImport ListNotations.\n")
-            f.write("Require Import %s.\n" % ctx.cfg["run_modules"][0])
-            f.write("Set Printing Width 1000000. Set Printing Depth 1000000.\n")
-            for i, r in enumerate(chunk):
-                f.write("Definition c%d : tcase := (%s).\n" % (i, r["coq"]))
-                f.write("Eval vm_compute in (mismatch_ids [c%d], expected c%d).\n" % (i, i))
-        rc, out = vcheck.sh(["coqc", "-Q", vcheck.COQ, "Verif", "-o", path + "o", path], timeout=900)
-        parts = re.split(r"^\s+= ", out, flags=re.M)[1:]
-        if rc != 0 or len(parts) != len(chunk):
-            ctx.log("expected-evaluation failed: " + out[-600:])
-            ctx.eval_errors = True
-            res += [(True, "")] * len(chunk)
-            continue
-        for p in parts:
-            body = re.split(r"\n\s+: ", p)[0]
-            res.append((not body.startswith("([],"), body))
+    for p in parts:
+        body = re.split(r"\n\s+: ", p)[0]
+        res.append((not body.startswith("([],"), body))
+    return res, ""
+
+
+def eval_expected(ctx, recs, tag):
+    """-> list of (still_mismatching, expected_text) per record; chunks are evaluated in parallel"""
+    import concurrent.futures as cf
+    per = 40
+    jobs = [(ctx.work, ctx.cfg["run_modules"][0], tag, s // per, recs[s:s + per]) for s in range(0, len(recs), per)]
+    res = []
+    with cf.ThreadPoolExecutor(max_workers=vcheck.NCPU) as ex:
+        for job, (r, err) in zip(jobs, ex.map(_eval_chunk, jobs)):
+            if r is None:
+                ctx.log("expected-evaluation failed: " + err)
+                ctx.eval_errors = True
+                res += [(True, "")] * len(job[4])
+            else:
+                res += r
     return res
 
 
@@ -334,7 +370,7 @@ CFG = {
     "prop_file": "Properties/C19.v",
     "run_modules": ["Verif.C19.Run"],
     "coq_dirs": ["C19"],
-    "n": {"quick": 6000, "thorough": 300000},
+    "n": {"quick": 5000, "thorough": 300000},
     "shard": 400,
     "level": "proof",
     "shrink": False,
@@ -350,8 +386,11 @@ CFG = {
              "(none / allow-list / function family) x space (every legal form), observed: text or undefined or error class, "
              "JSON.parse of that text, Object.MarshalJSON; non-trivial = parse text of >= 3 units or a value containing an "
              "array/object; distinct = by hash of the case"),
-    "theorem_names": ["parse_sound", "parse_complete", "parse_iff_derives", "parse_print_roundtrip", "parse_print_gap_roundtrip",
-                      "print_parse_canonical", "quote_roundtrip", "quote_safe", "quote_wellformed"],
+    "theorem_names": ["parse_sound", "parse_complete", "parse_iff_derives", "parse_rejects", "derives_functional",
+                      "parse_print_gap_roundtrip", "parse_print_roundtrip", "print_derives", "print_parse_canonical",
+                      "print_idempotent", "canonical_form_decides", "derives_wf", "quote_roundtrip", "quote_safe",
+                      "quote_wellformed", "stringify_json_shaped", "stringify_parse_roundtrip", "gap_of_number_ws",
+                      "marshal_agrees", "symbol_wrapper_refuted"],
     "allowed_axioms": [],
     "trusted_base": [
         "Coq 8.16.1 kernel + vm_compute (no native_compute); theorems closed under the global context (no axioms)",
@@ -365,6 +404,11 @@ CFG = {
     "assumptions": [
         "the implementation is tied to the model only on the generated cases (correspondence), not by proof",
         "function replacers / toJSON are drawn from a fixed deterministic family (3 + 3 members); reviver and proxies are not modelled",
+        "under an allow-list replacer members are read with [[Get]]: the inherited accessor __proto__ is modelled "
+        "(proto_chain_text); allow-lists naming other inherited accessors (e.g. Symbol.prototype.description) are not generated",
+        "the spec model was cross-checked against node 20 (V8) on 3000 generated cases during development: the only difference is "
+        "V8's own deviation for 0 < space < 1 (it emits line breaks with an empty gap); all five recorded goja findings are "
+        "goja-vs-(model = V8) differences",
     ],
     "predicates": {n: pred(n) for n in PRED_NAMES},
     "manifest": {
@@ -372,9 +416,11 @@ CFG = {
                  "inductive relation (it accepts EXACTLY the grammar, all inputs, white space included); the canonical printer "
                  "(QuoteJSONString + SerializeJSON*, with or without white-space gap) is proved to print a derivable text, hence "
                  "parse(print v) = v for every well-formed JSON value, printing is idempotent through parse, quoted strings parse back "
-                 "to the same unit list (lone surrogates included), contain no raw control character and are well-formed UTF-16. "
-                 "No axioms. The model (parser, JSON.parse result construction, JSON.stringify incl. replacers, toJSON, wrappers, gap) "
-                 "is tied to /repo on every run by differential correspondence on 6000 (quick) / 300000 (thorough) generated cases "
+                 "to the same unit list (lone surrogates included), contain no raw control character and are well-formed UTF-16; "
+                 "the model of JSON.stringify itself (SerializeJSONProperty/Object/Array over JS values) is proved to write exactly that "
+                 "canonical text on every JSON-shaped value (any keys, any creation order, any gap), hence parse(stringify v) = v. "
+                 "20 theorems, no axioms. The model (parser, JSON.parse result construction, JSON.stringify incl. replacers, toJSON, wrappers, gap) "
+                 "is tied to /repo on every run by differential correspondence on 5000 (quick) / 300000 (thorough) generated cases "
                  "evaluated by vm_compute; Object.MarshalJSON is compared on the shared domain."),
         "note": ("trusted: Coq kernel + vm_compute; the hand-written grammar and serialiser model; the rounding test and dump matcher of "
                  "Run.v; the Go harness and its JS prelude; the documented lone-surrogate exception of JSON.parse input is carved out by "
